@@ -67,6 +67,8 @@ pub enum HashT {
     SimB,
     Xx32,
     Sim32,
+    #[serde(alias = "Identity")]
+    Ident,
 }
 impl HashT {
     pub fn is32(&self) -> bool {
@@ -365,6 +367,7 @@ fn mk_h<T: Elem>(spec: &USpec) -> Box<dyn UNode> {
         HashT::SimB => mk::<T, SimB>(spec),
         HashT::Xx32 => mk::<T, XxHash32>(spec),
         HashT::Sim32 => mk::<T, Sim32A>(spec),
+        HashT::Ident => mk::<T, IdentHasher>(spec),
     }
 }
 
@@ -391,6 +394,7 @@ pub fn gen_uspec(rng: &mut crate::prng::Rng, kinds: &[UKind], max_m: usize) -> U
             HashT::SimA,
             HashT::SimB,
             HashT::Xx32,
+            HashT::Ident,
         ])
     };
     let m = match rng.below(10) {
